@@ -194,6 +194,10 @@ def dataflow_parts(pid: str, tier: str):
             mk("programs-2stmts-b4", DCfg(focus="C01", budget=4, flavours="s"), ["w_call", "w_op", "w_sub"], 1800)
     elif pid == "C10":
         mk("flag-forms", DCfg(focus="C10", budget=3), ["w_flag", "w_flag_indexed", "w_flag_on_nested", "w_deactivated"])
+        from harness.compose import CCfg, run_compose
+
+        parts.append(Part("flags-in-composed-dags", P(run_compose, CCfg(N=3, setup=False, features="act")), {"N": 3, "what": "activation edges (plain and indexed) whose flag node is / is not an input of compose()"},
+                          900, 7, ["w_flag_from_input"], COMPOSE_FUNCS))
         if not q:
             mk("flag-forms-3stmts", DCfg(stmts=("s", "s", "s"), focus="C10", budget=3, depth=2), ["w_flag", "w_flag_on_nested"], 1800)
             mk("flag-forms-b4", DCfg(focus="C10", budget=4), ["w_flag", "w_flag_on_nested"], 1800)
@@ -240,7 +244,9 @@ def history_parts(pid: str, tier: str):
     parts = []
     if pid == "C11":
         b = {"N": 3, "setup placement": "every subset (invalid ones must be rejected)", "operations": "call, setup(), executor(), executor(target=[i]), setup(target=[i]), deepcopy-then-continue"}
-        parts.append(Part("histories-len2", P(run_c11, HCfg(N=3, length=2, flavours="sa")), dict(b, length=2, flavours="sync+async"), 900, 8, ["w_invalid_rejected", "w_reuse", "w_deepcopy"], HIST_FUNCS))
+        parts.append(Part("build-validation", P(run_c11, HCfg(N=3, length=0, flavours="s")), dict(b, what="setup placement x root kinds x leading constants: invalid placements rejected at build"), 900, 8, ["w_invalid_rejected"], HIST_FUNCS))
+        parts.append(Part("histories-len2", P(run_c11, HCfg(N=3, length=2, flavours="s")), dict(b, length=2), 900, 8, ["w_reuse", "w_deepcopy", "w_setup_root_target"], HIST_FUNCS))
+        parts.append(Part("histories-len2-N2-async", P(run_c11, HCfg(N=2, length=2, flavours="a")), dict(b, N=2, length=2, flavour="async"), 900, 8, ["w_reuse"], HIST_FUNCS))
         parts.append(Part("histories-len3-N2", P(run_c11, HCfg(N=2, length=3, flavours="s")), dict(b, N=2, length=3), 900, 8, ["w_reuse"], HIST_FUNCS))
         if not q:
             parts.append(Part("histories-len3", P(run_c11, HCfg(N=3, length=3, flavours="sa")), dict(b, length=3), 2400, 9, ["w_reuse", "w_deepcopy"], HIST_FUNCS))
@@ -254,7 +260,7 @@ def history_parts(pid: str, tier: str):
             parts.append(Part("histories-len4", P(run_c15, HCfg(length=4, flavours="s")), dict(b, length="4+1"), 2400, 9, ["w_final_call"], HIST_FUNCS))
     elif pid == "C18":
         b = {"N": 3, "caching selection": "whole, target=[i], cache_deps_of=[i]", "restart": "same selection or whole DAG; on the same instance or on a pristine deep copy", "setup": "first node optionally a setup node"}
-        parts.append(Part("cache-restart", P(run_c18, HCfg(N=3, length=2)), b, 900, 8, ["w_deps_of_restart"], HIST_FUNCS))
+        parts.append(Part("cache-restart", P(run_c18, HCfg(N=3, length=2, flavours="sa")), dict(b, flavours="sync and async"), 900, 8, ["w_deps_of_restart", "w_deps_of_two"], HIST_FUNCS))
         parts.append(Part("cache-restart-two-rounds-N2", P(run_c18, HCfg(N=2, length=4)), dict(b, N=2, rounds="two caching runs on the same file, each followed by a restart"), 900, 8, ["w_second_round"], HIST_FUNCS))
         if not q:
             parts.append(Part("cache-restart-two-rounds", P(run_c18, HCfg(N=3, length=4)), dict(b, rounds=2), 2400, 9, ["w_second_round"], HIST_FUNCS))
